@@ -98,6 +98,8 @@ const VALID_OPS: &[&str] = &[
     "geo:in | tmerc lat_0=49 lon_0=-2 k_0=0.9996012717 x_0=400000 y_0=-100000 ellps=airy",
     "dms",
     "geo:in | helmert x=1 dx=1 t_epoch=2000 | geo:out",
+    "geo:in | gridshift grids=test_subset.datum,test.datum | geo:out",
+    "geo:in | gridshift grids=test_subset.datum, test.datum, @null | geo:out",
 ];
 
 const INVALID_OPS: &[&str] = &[
